@@ -26,16 +26,19 @@
   it), non-strict mode, the TRAP is fetched from plain memory, the supervisor-stack cells used lie in plain memory
   above the OS image, the device ports are not shadowed by internal registers, and the devices answer as named.
   `Rt.demo_getc` instantiates everything on a freshly constructed machine (non-vacuity).
-  The contracts are stated for the fetch-execute function (`fetchExec`, iterated: `Rt.feN`), i.e. for a machine whose
-  device poll at the instruction boundaries reports nothing and leaves the devices unchanged; `Rt.step_quiet` shows
-  that the public `step` is exactly that function then, and C10 (`gate`, `entry`, `rti_undoes_entry`) covers a poll
-  that does take an interrupt.
+  The contracts are about the PUBLIC `step` function (`Rt.feN n` = `n` calls of `Sim.step`).  The device poll that opens
+  every step must be quiet; this is required as a set `Q` of device configurations that is closed under the routines'
+  device accesses (`Rt.QuietSet`: poll reports nothing and changes nothing; closed under reads and DDR stores), with the
+  devices of the start state in `Q`.  `Rt.stdDev_quiet`: the default devices (keyboard with interrupts disabled, display)
+  in every buffer and lock state form such a set; `Rt.step_quiet` is the bridge lemma.  A poll that does take an interrupt
+  is C10's subject (`gate`, `entry`, `interrupt_transparent`).
   Not proved: strict mode, and the composition with interrupts arriving during a routine.
 -/
 import Lc3V.Lemmas.C11Core
 import Lc3V.Lemmas.OsRoutines
 import Lc3V.Lemmas.OsPuts
 import Lc3V.Lemmas.OsPutsp
+import Lc3V.Lemmas.OsStd
 namespace Lc3V.C11
 open Lc3V
 
@@ -44,6 +47,7 @@ def obligations : List Lean.Name :=
    ``Rt.fetchExec_plain, ``Rt.trap_step_os, ``Rt.return_from, ``Rt.newSim_osLoaded, ``Rt.newSim_mcr_mapped,
    ``Rt.getc_trap, ``Rt.out_trap, ``Rt.puts_trap, ``Rt.in_trap, ``Rt.halt_contract, ``Rt.halt_trap,
    ``Rt.mcr_off_stops, ``Rt.demo_getc, ``Rt.round_k, ``Rt.eight_rounds, ``Rt.shift_loop, ``Rt.putsp_loop,
-   ``Rt.putsp_trap, ``Rt.step_quiet]
+   ``Rt.putsp_trap, ``Rt.step_quiet, ``Rt.stdDev_quiet,
+   ``Rt.stdDevs_emits, ``Rt.getc_std, ``Rt.out_std, ``Rt.puts_std, ``Rt.putsp_std, ``Rt.in_std]
 
 end Lc3V.C11
